@@ -8,12 +8,12 @@ ActsAll == {"Translate", "Scale", "MeshRotate90", "FieldRotate90", "MkField",
             "Neg", "Pos", "Abs", "Add", "Mul", "MulNum", "Comp", "LShift", "Diff",
             "Sub", "Dot", "Cross", "Norm", "Orientation", "Integrate", "FromField", "SetSub",
             "QMeshClose", "QFieldClose", "QRegionIn", "QAligned",
-            "SetValidArray", "SetValidNorm", "SetValidNone", "MutateValid", "UpdateConst", "SetArray",
+            "SetValidArray", "SetValidNorm", "SetValidNone", "MutateValid", "UpdateConst", "SetArray", "WriteArray",
             "SelPlane", "SelRange", "GetSub", "GetRegion", "Pad", "Resample",
             "H5", "Ovf", "Vtk", "Xarray"}
 Scen_A2 == {"A2"}
 (* depth 3: the calls that create sharing (algebra, field[name], resample), in-place steps, and the calls that read through it *)
-Acts_d3 == {"Norm", "FromField", "SetSub", "Neg", "Add", "GetSub", "Resample", "SelRange", "Pad", "FieldRotate90", "Translate", "MutateValid", "SetValidNorm", "UpdateConst", "H5", "Diff"}
+Acts_d3 == {"WriteArray", "Norm", "FromField", "SetSub", "Neg", "Add", "GetSub", "Resample", "SelRange", "Pad", "FieldRotate90", "Translate", "MutateValid", "SetValidNorm", "UpdateConst", "H5", "Diff"}
 Acts_alias == {"Neg", "GetSub", "Resample", "Translate", "FieldRotate90", "MeshRotate90"}
 TransVs_def == {<<R(4), H(-3, 2), R(1)>>, <<R(0), R(0), R(0)>>}    \* the zero vector is a vector like any other
 ScaleFs_q   == {<<R(2), R(2), R(2)>>}
